@@ -82,8 +82,26 @@ class ErrorRender:
 
 	def __build_message(self) -> str:
 		"""Returns: 例外メッセージ"""
-		join_args = ', '.join([f'"{arg}"' if isinstance(arg, str) else str(arg) for arg in self.e.args])
+		join_args = ', '.join([self.__arg_to_str(arg) for arg in self.e.args])
 		return f'({join_args})'
+
+	def __arg_to_str(self, arg: object) -> str:
+		"""例外の引数を文字列に変換
+
+		Args:
+			arg: 例外の引数
+		Returns:
+			文字列表現
+		Note:
+			Node.__str__はスコープ解決を伴うため、不正なツリー上では例外を出力し得る。その場合はreprで代替
+		"""
+		if isinstance(arg, str):
+			return f'"{arg}"'
+
+		try:
+			return str(arg)
+		except Exception:
+			return repr(arg)
 
 	class Quotation:
 		"""引用ビルダー"""
